@@ -2,3 +2,5 @@ import CoapVerif.Props.C19
 import CoapVerif.Props.C20
 import CoapVerif.Props.C07
 import CoapVerif.Props.C08
+import CoapVerif.Props.C18
+import CoapVerif.Findings.C18
